@@ -213,3 +213,47 @@ def type_gate(n: int, c0: int, c1: int, c2: int, k1: bool, k2: bool, dup: bool) 
                 P.check(got == want_v, "ascii-text-encoded", f"gate:encoding:{what}")
         except TypeError:
             P.check(not ascii_only, "ascii-text-and-bytes-accepted", f"gate:rejected:{what}")
+
+
+COMPONENT_HOSTS = (b"example.com", b"10.0.0.1", b"::1", b"[::1]", b"2001:db8::1", b"[2001:db8::1]")
+
+
+@harness(
+    "C19", "component_hosts",
+    quick=[{}],
+    example=dict(h=3, s=1, pm=2),
+    require=("ipv6-bracketed-given", "ipv6-bare-given", "name-given"),
+    timeout={"quick": 200, "thorough": 400},
+    symbolic="a URL given by components: host form (name, IPv4, IPv6 literal bare or already bracketed), scheme (4), port (absent, the scheme's default, 8443)",
+    bounds="6 host forms x 4 schemes x 3 port forms (the Host/port decision for every integer port is the E2 kernel's)",
+    outside="host forms outside the six",
+    stubs=(),
+)
+def component_hosts(h: int, s: int, pm: int) -> None:
+    """
+    pre: 0 <= h <= 5 and 0 <= s <= 3 and 0 <= pm <= 2
+    post: _
+    """
+    host = pick(h, COMPONENT_HOSTS)
+    scheme = pick(s, SCHEMES[:4])
+    mode = ladder(pm, 0, 2)
+    with concrete(mode):
+        default = DEFAULT[scheme]
+        port = (None, default, 8443)[mode]
+        url = httpcore.URL(scheme=scheme.encode(), host=host, port=port, target=b"/t")
+        bare = host.strip(b"[]")
+        v6 = b":" in bare
+        P.cover("name-given" if not v6 else ("ipv6-bracketed-given" if host.startswith(b"[") else "ipv6-bare-given"))
+        want = (b"[" + bare + b"]") if v6 else bare
+        if port is not None and port != default:
+            want += b":8443"
+        hv = dict(include_request_headers([], url=url, content=None)).get(b"Host")
+        P.check(hv == want, "host-header-wellformed", lambda: f"url:host-header:component:{host!r}:{hv!r}")
+        # serialising parses back to a URL for the same origin and target
+        try:
+            back = httpcore.URL(bytes(url))
+            P.check(_bare(back.origin.host) == bare and back.origin.port == url.origin.port and back.origin.scheme == url.origin.scheme,
+                    "bytes(url)-round-trips", lambda: f"url:roundtrip:component:{host!r}:{bytes(url)!r}")
+            P.check(back.target == b"/t", "bytes(url)-round-trips", lambda: f"url:roundtrip:component-target:{host!r}")
+        except Exception as e:  # noqa: BLE001
+            P.fail("bytes(url)-round-trips", f"url:roundtrip:component:{host!r}:{type(e).__name__}")
